@@ -11,7 +11,8 @@ BUDGET = {'quick': 90, 'thorough': 900}
 RULE = ('(1) scripted transport: message sequences (1-4 messages, payloads 0 B - 300 KB) cut into reads in every possible way for '
         'short streams, every single and double cut plus seeded random cuts and 1-byte reads for long ones, and truncated at '
         'every offset with FIN and with RST; (2) the same on simulated TCP with a sender and a receiver thread, seeded '
-        'segmentation, latency, small buffers and peer close (FIN / RST) at an offset.')
+        'segmentation, latency, small buffers, peer close (FIN / RST) at an offset, and handled signals arriving while the sender '
+        'is blocked mid-message.')
 ASSUMPTIONS = ['"promptly" = after the first read reporting EOF / reset the receiver issues no further read before raising']
 
 PAYLOADS = [None, 0, '', b'', 'x', [1, 2], {'a': None}, 'y' * 40, list(range(30))]
@@ -33,6 +34,10 @@ class Capture:
 
     def sendall(self, b):
         self.data += b
+
+    def send(self, b):
+        self.data += b
+        return len(b)
 
 
 class ScriptSock:
@@ -212,10 +217,35 @@ class Run:
             except BaseException as e:   # noqa
                 res['end'] = 'exc:' + type(e).__name__
 
-        ts = SimThread(target=sender)
         tr = SimThread(target=receiver)
         tr.start()
-        ts.start()
+        if c.get('signals'):
+            # the sender is the main thread of its process and a handled signal (think SIGCHLD / SIGALRM / SIGUSR1 handlers of
+            # the embedding program) arrives while it is blocked in the middle of a message with the socket buffer full
+            import signal as _sig
+            from simos.shims import SignalFacade, sim_kill
+            SignalFacade.signal(_sig.SIGUSR1, lambda *a: None)
+            me = s.me()
+            pid = me.proc.pid
+            st = {'n': 0, 'left': c['signals']}
+
+            def hook(sim, t, what):
+                if t is me and what and str(what).startswith('send-full') and st['left'] > 0:
+                    st['n'] += 1
+                    if st['n'] >= c.get('signal_at', 1):
+                        st['left'] -= 1
+                        sim.fault('signal-during-blocked-send')
+                        sim.add_timer(sim.now + 0.0005, lambda: sim_kill(pid, _sig.SIGUSR1))
+            s.block_hooks.append(hook)
+            try:
+                sender()
+            except BaseException as e:   # noqa
+                res['sender'] = 'exc:' + type(e).__name__
+            finally:
+                s.block_hooks.remove(hook)
+        else:
+            ts = SimThread(target=sender)
+            ts.start()
         tr.join(3600.0)
         total = len(data) if cut is None else cut
         nfull = sum(1 for b in bounds if b <= total)
@@ -308,6 +338,11 @@ def plan(ctx):
             b = rng.choice([0] + bounds)
             kw['truncate'] = max(0, min(len(data) - 1, rng.choice([b + rng.randrange(-3, 8), rng.randrange(0, len(data))])))
             kw['end'] = rng.choice(['fin', 'rst'])
+        elif rng.random() < 0.5:
+            # handled signals while the sender is blocked mid-message (needs a message larger than the socket buffers)
+            msgs[rng.randrange(len(msgs))] = {'$big': rng.choice([300000, 600000])}
+            kw['signals'] = rng.randrange(1, 4)
+            kw['signal_at'] = rng.randrange(1, 4)
         c = _case(ctx, 'tcp', msgs, 'tcp', i, **kw)
         c['policy'], c['knobs'] = pol, knobs
         tc.append(c)
